@@ -16,4 +16,8 @@ Definition window_forwarding_ok : bool :=
   forallb (fun pf : list string * list string => list_eqb String.eqb (fst pf) (snd pf))
           [fwd_frame_axis_window; fwd_frame_axis_window_items; fwd_series_axis_window; fwd_series_axis_window_items].
 
+(* what M_frame_group assumes about TypeBlocks.group (type_blocks.py:794-803): np.unique gets axis= iff the key
+   array is 2-D (a list/slice/mask key), and then the grouping axis -- whatever the number of selected rows/columns *)
+Definition model_unique_axis (axis : Z) (two_d : bool) : option Z := if two_d then Some axis else None.
+
 Definition path_is_sort (p : gpath) : bool := match p with PathSort => true | PathUnique => false end.
